@@ -182,6 +182,20 @@ where
                         Err(_) => keep,
                     }
                 },
+                Call::Reparse => {
+                    let keep = b.clone();
+                    match b.build() {
+                        Ok(p) => match p.to_string().parse::<GenericPurl<String>>() {
+                            Ok(q) => {
+                                let mut nb = p.into_builder();
+                                nb.parts = q.into_builder().parts;
+                                nb
+                            },
+                            Err(_) => keep,
+                        },
+                        Err(_) => keep,
+                    }
+                },
                 Call::PartsQualIndexMut(k, v) => {
                     if b.parts.qualifiers.contains_key(k.as_str()) {
                         b.parts.qualifiers[k.as_str()] = v.as_str().into();
